@@ -94,6 +94,7 @@ structure WF (c : Cache K V) (now : Nat) : Prop where
   sorted : Sorted c now
   bounded : Bounded c
 
+omit [DecidableEq K] in
 theorem new_wf (ttl : Nat) (cap : Option Nat) (now : Nat) : WF (new ttl cap : Cache K V) now :=
   ⟨List.Pairwise.nil, ⟨List.Pairwise.nil, fun _ h => by cases h⟩, Nat.zero_le _⟩
 
@@ -331,5 +332,576 @@ theorem run_wf {c : Cache K V} {t0 : Nat} (ops : List (Nat × Op K V)) (h : WF c
   | cons p rest ih =>
     obtain ⟨t, op⟩ := p
     exact ih (step_wf t op h hm.1) hm.2
+
+/-! ### eviction -/
+
+/-- Inserting a key that is not in a full cache (capacity ≥ 1): the front entry goes, the new
+entry is attached at the back, everything in between is untouched. -/
+theorem insert_full_fresh {c : Cache K V} (now : Nat) {k : K} (v : V)
+    (hfull : c.map.length = c.capacity) (hcap : 1 ≤ c.capacity) (hk : ∀ e ∈ c.map, e.key ≠ k) :
+    (insert c now k v).map = c.map.tail ++ [(⟨k, v, now⟩ : Entry K V)] := by
+  rw [insert_map, lhmErase_of_absent hk]
+  have hne : c.map ≠ [] := by
+    intro h; rw [h] at hfull; simp at hfull; omega
+  rw [if_pos (by rw [List.length_append, List.length_singleton]; omega)]
+  exact List.tail_append_of_ne_nil hne
+
+/-- Inserting a key that is not in a cache with room left: nothing is evicted. -/
+theorem insert_room_fresh {c : Cache K V} (now : Nat) {k : K} (v : V)
+    (hroom : c.map.length < c.capacity) (hk : ∀ e ∈ c.map, e.key ≠ k) :
+    (insert c now k v).map = c.map ++ [(⟨k, v, now⟩ : Entry K V)] := by
+  rw [insert_map, lhmErase_of_absent hk]
+  rw [if_neg (by rw [List.length_append, List.length_singleton]; omega)]
+
+/-! ### the use log and the recency order -/
+
+/-- Keys *used* by an operation: the key of an `insert`, and the key of a `get`/`get_mut` that
+returned a value.  (`peek`, `len`, `remove`, the sweep and misses use nothing.) -/
+def used (c : Cache K V) (now : Nat) : Op K V → List K
+  | .insert k _ => [k]
+  | .get k => if (getMutWith c now k id).2.isSome then [k] else []
+  | .getMut k w => if (getMutWith c now k (fun _ => w)).2.isSome then [k] else []
+  | _ => []
+
+/-- The keys used along an operation sequence, oldest use first. -/
+def useLog (c : Cache K V) : List (Nat × Op K V) → List K
+  | [] => []
+  | (t, op) :: rest => used c t op ++ useLog (step c t op).1 rest
+
+/-- In the use log, the last use of `a` is earlier than the last use of `b`: after the last
+occurrence of `a` there is still an occurrence of `b`. -/
+def UsedBefore (log : List K) (a b : K) : Prop :=
+  ∃ l1 l2, log = l1 ++ a :: l2 ∧ a ∉ l2 ∧ b ∈ l2
+
+/-- The list order is the recency order of `log`: an entry nearer to the front was last used
+earlier; every key held has been used. -/
+def Recency (log : List K) (m : List (Entry K V)) : Prop :=
+  m.Pairwise (fun a b => UsedBefore log a.key b.key) ∧ ∀ e ∈ m, e.key ∈ log
+
+theorem exists_last_split {a : K} {l : List K} (h : a ∈ l) :
+    ∃ l1 l2, l = l1 ++ a :: l2 ∧ a ∉ l2 := by
+  induction l with
+  | nil => cases h
+  | cons x xs ih =>
+    by_cases hin : a ∈ xs
+    · obtain ⟨l1, l2, h1, h2⟩ := ih hin
+      exact ⟨x :: l1, l2, by rw [h1]; rfl, h2⟩
+    · rcases List.mem_cons.1 h with h | h
+      · exact ⟨[], xs, by rw [h]; rfl, hin⟩
+      · exact absurd h hin
+
+omit [DecidableEq K] in
+theorem usedBefore_snoc {log : List K} {a b k : K} (h : UsedBefore log a b) (hak : a ≠ k) :
+    UsedBefore (log ++ [k]) a b := by
+  obtain ⟨l1, l2, h1, h2, h3⟩ := h
+  refine ⟨l1, l2 ++ [k], by rw [h1]; simp, ?_, List.mem_append_left _ h3⟩
+  intro hmem
+  rcases List.mem_append.1 hmem with hm | hm
+  · exact h2 hm
+  · exact hak (List.mem_singleton.1 hm)
+
+theorem usedBefore_snoc_self {log : List K} {a k : K} (h : a ∈ log) (hak : a ≠ k) :
+    UsedBefore (log ++ [k]) a k := by
+  obtain ⟨l1, l2, h1, h2⟩ := exists_last_split h
+  refine ⟨l1, l2 ++ [k], by rw [h1]; simp, ?_, by simp⟩
+  intro hmem
+  rcases List.mem_append.1 hmem with hm | hm
+  · exact h2 hm
+  · exact hak (List.mem_singleton.1 hm)
+
+omit [DecidableEq K] in
+theorem Recency.sublist {log : List K} {m m' : List (Entry K V)} (h : Recency log m)
+    (hs : m'.Sublist m) : Recency log m' :=
+  ⟨h.1.sublist hs, fun e he => h.2 e (hs.subset he)⟩
+
+/-- Using `k` (attaching its entry at the back) keeps the list in recency order. -/
+theorem Recency.touch {log : List K} {m : List (Entry K V)} {e : Entry K V} (h : Recency log m) :
+    Recency (log ++ [e.key]) (lhmErase m e.key ++ [e]) := by
+  refine ⟨?_, ?_⟩
+  · rw [List.pairwise_append]
+    refine ⟨?_, List.pairwise_singleton _ _, ?_⟩
+    · refine List.Pairwise.imp_of_mem ?_ (h.1.sublist (lhmErase_sublist _ _))
+      intro a b ha _ hab
+      exact usedBefore_snoc hab (mem_lhmErase.1 ha).2
+    · intro a ha b hb
+      rw [List.mem_singleton] at hb
+      rw [hb]
+      have := mem_lhmErase.1 ha
+      exact usedBefore_snoc_self (h.2 a this.1) this.2
+  · intro a ha
+    rcases List.mem_append.1 ha with ha | ha
+    · exact List.mem_append_left _ (h.2 a (mem_lhmErase.1 ha).1)
+    · rw [List.mem_singleton] at ha; rw [ha]; simp
+
+theorem step_recency {log : List K} {c : Cache K V} (now : Nat) (op : Op K V)
+    (h : Recency log c.map) : Recency (log ++ used c now op) (step c now op).1.map := by
+  have hget : ∀ (k : K) (f : V → V),
+      Recency (log ++ (if (getMutWith c now k f).2.isSome then [k] else []))
+        (getMutWith c now k f).1.map := by
+    intro k f
+    rcases getMutWith_cases c now k f with ⟨_, hr⟩ | ⟨e, _, _, hr⟩ | ⟨e, hg, _, hr⟩ <;> rw [hr]
+    · simpa using h
+    · simpa using h.sublist (lhmErase_sublist _ _)
+    · have hk := (lhmGet_some hg).2
+      have := h.touch (e := ({ e with val := f e.val, stamp := now } : Entry K V))
+      simpa [hk] using this
+  cases op with
+  | insert k v =>
+    have h1 := h.touch (e := (⟨k, v, now⟩ : Entry K V))
+    show Recency (log ++ [k]) (insert c now k v).map
+    rw [insert_map]
+    split
+    · exact h1.sublist (List.tail_sublist _)
+    · exact h1
+  | get k => exact hget k id
+  | getMut k w => exact hget k _
+  | peek k => simpa [used, step] using h
+  | len => simpa [used, step] using h
+  | remove k => simpa [used, step, remove] using h.sublist (lhmErase_sublist _ _)
+  | sweep => simpa [used, step, removeExpired] using h.sublist (List.dropWhile_sublist _)
+
+theorem run_recency {log : List K} {c : Cache K V} (ops : List (Nat × Op K V))
+    (h : Recency log c.map) : Recency (log ++ useLog c ops) (run c ops).map := by
+  induction ops generalizing c log with
+  | nil => simpa [useLog, run] using h
+  | cons p rest ih =>
+    obtain ⟨t, op⟩ := p
+    have := ih (step_recency t op h)
+    simpa [useLog, run, List.append_assoc] using this
+
+/-! ### stamps of a key that is not used -/
+
+/-- `insert k`, `get k`, `get_mut k`. -/
+def usesKey (k : K) : Op K V → Bool
+  | .insert k' _ => decide (k' = k)
+  | .get k' => decide (k' = k)
+  | .getMut k' _ => decide (k' = k)
+  | _ => false
+
+/-- `insert k`. -/
+def insertsKey (k : K) : Op K V → Bool
+  | .insert k' _ => decide (k' = k)
+  | _ => false
+
+/-- `get k`, `get_mut k`, `peek k`. -/
+def queriesKey (k : K) : Op K V → Bool
+  | .get k' => decide (k' = k)
+  | .getMut k' _ => decide (k' = k)
+  | .peek k' => decide (k' = k)
+  | _ => false
+
+/-- Whatever entry the cache holds for `k` was stamped at `s` or earlier. -/
+def StampLe (c : Cache K V) (k : K) (s : Nat) : Prop := ∀ e ∈ c.map, e.key = k → e.stamp ≤ s
+
+theorem getMutWith_mem {c : Cache K V} {now : Nat} {k : K} {f : V → V} {a : Entry K V}
+    (ha : a ∈ (getMutWith c now k f).1.map) :
+    a ∈ c.map ∨ (a.key = k ∧ a.stamp = now ∧ (getMutWith c now k f).2.isSome) := by
+  rcases getMutWith_cases c now k f with ⟨_, hr⟩ | ⟨e, _, _, hr⟩ | ⟨e, hg, _, hr⟩ <;>
+    rw [hr] at ha ⊢
+  · exact Or.inl ha
+  · exact Or.inl (mem_lhmErase.1 ha).1
+  · rcases List.mem_append.1 ha with ha | ha
+    · exact Or.inl (mem_lhmErase.1 ha).1
+    · rw [List.mem_singleton] at ha
+      exact Or.inr ⟨by rw [ha]; exact (lhmGet_some hg).2, by rw [ha], rfl⟩
+
+theorem insert_mem {c : Cache K V} {now : Nat} {k : K} {v : V} {a : Entry K V}
+    (ha : a ∈ (insert c now k v).map) : a ∈ c.map ∨ a = ⟨k, v, now⟩ := by
+  rw [insert_map] at ha
+  have : a ∈ lhmErase c.map k ++ [(⟨k, v, now⟩ : Entry K V)] := by
+    split at ha
+    · exact List.mem_of_mem_tail ha
+    · exact ha
+  rcases List.mem_append.1 this with h | h
+  · exact Or.inl (mem_lhmErase.1 h).1
+  · exact Or.inr (List.mem_singleton.1 h)
+
+/-- An entry after an operation was there before, unless the operation used its key. -/
+theorem step_mem {c : Cache K V} {now : Nat} {op : Op K V} {a : Entry K V}
+    (ha : a ∈ (step c now op).1.map) : a ∈ c.map ∨ (usesKey a.key op = true ∧ a.stamp = now) := by
+  cases op with
+  | insert k v =>
+    rcases insert_mem ha with h | h
+    · exact Or.inl h
+    · exact Or.inr (by rw [h]; simp [usesKey])
+  | get k =>
+    rcases getMutWith_mem ha with h | ⟨h1, h2, _⟩
+    · exact Or.inl h
+    · exact Or.inr ⟨by simp [usesKey, h1], h2⟩
+  | getMut k w =>
+    rcases getMutWith_mem ha with h | ⟨h1, h2, _⟩
+    · exact Or.inl h
+    · exact Or.inr ⟨by simp [usesKey, h1], h2⟩
+  | peek k => exact Or.inl ha
+  | len => exact Or.inl ha
+  | remove k => exact Or.inl (mem_lhmErase.1 ha).1
+  | sweep => exact Or.inl ((List.dropWhile_sublist _).subset ha)
+
+theorem step_stampLe_of_not_uses {c : Cache K V} {k : K} {s : Nat} (now : Nat) {op : Op K V}
+    (h : StampLe c k s) (hu : usesKey k op = false) : StampLe (step c now op).1 k s := by
+  intro a ha hk
+  rcases step_mem ha with h1 | ⟨h1, _⟩
+  · exact h a h1 hk
+  · rw [hk, hu] at h1; cases h1
+
+theorem run_stampLe_of_not_uses {c : Cache K V} {k : K} {s : Nat} (ops : List (Nat × Op K V))
+    (h : StampLe c k s) (hu : ∀ p ∈ ops, usesKey k p.2 = false) : StampLe (run c ops) k s := by
+  induction ops generalizing c with
+  | nil => exact h
+  | cons p rest ih =>
+    exact ih (step_stampLe_of_not_uses p.1 h (hu p (List.mem_cons_self ..)))
+      (fun q hq => hu q (List.mem_cons_of_mem _ hq))
+
+/-- After the deadline `s + ttl` a query for `k` is a miss and nothing but `insert k` can bring
+an entry for `k` with a later stamp. -/
+theorem step_after_deadline {c : Cache K V} {k : K} {s : Nat} {now : Nat} {op : Op K V}
+    (h : StampLe c k s) (hdead : s + c.ttl < now) (hins : insertsKey k op = false) :
+    StampLe (step c now op).1 k s ∧
+      (queriesKey k op = true → (step c now op).2 = Reply.val none) := by
+  have hmiss : ∀ f : V → V, (getMutWith c now k f).2 = none ∧
+      StampLe (getMutWith c now k f).1 k s := by
+    intro f
+    rcases getMutWith_cases c now k f with ⟨_, hr⟩ | ⟨e, _, _, hr⟩ | ⟨e, hg, hx, hr⟩
+    · rw [hr]; exact ⟨rfl, h⟩
+    · rw [hr]; exact ⟨rfl, fun a ha hk => h a (mem_lhmErase.1 ha).1 hk⟩
+    · have := h e (lhmGet_some hg).1 (lhmGet_some hg).2
+      exact absurd (by omega) hx
+  cases op with
+  | insert k' v =>
+    have hne : k' ≠ k := by simpa [insertsKey] using hins
+    exact ⟨step_stampLe_of_not_uses now h (by simp [usesKey, hne]), by simp [queriesKey]⟩
+  | get k' =>
+    by_cases hk : k' = k
+    · subst hk
+      exact ⟨(hmiss id).2, fun _ => by simp [step, get, getMut, (hmiss id).1]⟩
+    · exact ⟨step_stampLe_of_not_uses now h (by simp [usesKey, hk]), by simp [queriesKey, hk]⟩
+  | getMut k' w =>
+    by_cases hk : k' = k
+    · subst hk
+      exact ⟨(hmiss _).2, fun _ => by simp [step, (hmiss _).1]⟩
+    · exact ⟨step_stampLe_of_not_uses now h (by simp [usesKey, hk]), by simp [queriesKey, hk]⟩
+  | peek k' =>
+    refine ⟨h, ?_⟩
+    intro hq
+    have hk : k' = k := by simpa [queriesKey] using hq
+    subst hk
+    simp only [step, peek]
+    cases hg : lhmGet c.map k' with
+    | none => rfl
+    | some e =>
+      have := h e (lhmGet_some hg).1 (lhmGet_some hg).2
+      simp only []
+      rw [if_neg (by omega)]
+  | len => exact ⟨h, by simp [queriesKey]⟩
+  | remove k' =>
+    exact ⟨step_stampLe_of_not_uses now h (by simp [usesKey]), by simp [queriesKey]⟩
+  | sweep => exact ⟨step_stampLe_of_not_uses now h (by simp [usesKey]), by simp [queriesKey]⟩
+
+theorem trace_after_deadline {c : Cache K V} {k : K} {s : Nat} (ops : List (Nat × Op K V))
+    (h : StampLe c k s) (hops : ∀ p ∈ ops, s + c.ttl < p.1 ∧ insertsKey k p.2 = false) :
+    ∀ x ∈ trace c ops, queriesKey k x.2.1 = true → x.2.2 = Reply.val none := by
+  induction ops generalizing c with
+  | nil => intro x hx; cases hx
+  | cons p rest ih =>
+    obtain ⟨t, op⟩ := p
+    have hp := hops (t, op) (List.mem_cons_self ..)
+    have hs := step_after_deadline h hp.1 hp.2
+    intro x hx
+    rcases List.mem_cons.1 hx with hx | hx
+    · rw [hx]; exact hs.2
+    · refine ih hs.1 ?_ x hx
+      intro q hq
+      rw [step_ttl]
+      exact hops q (List.mem_cons_of_mem _ hq)
+
+/-! ### the specification: a bounded LRU map of live entries -/
+
+/-- The entries that are alive at `now` (not expired), in list order. -/
+def live (ttl now : Nat) (m : List (Entry K V)) : List (Entry K V) :=
+  m.filter (fun e => !expired ttl now e)
+
+namespace Spec
+
+/-- Specification state: the live entries, least recently used first.  Each entry is
+`key ↦ (value, time of last use)`.  Every operation first forgets what has expired. -/
+def insert (cap now : Nat) (k : K) (v : V) (s : List (Entry K V)) : List (Entry K V) :=
+  if (lhmErase s k ++ [(⟨k, v, now⟩ : Entry K V)]).length > cap
+  then (lhmErase s k ++ [(⟨k, v, now⟩ : Entry K V)]).tail
+  else lhmErase s k ++ [(⟨k, v, now⟩ : Entry K V)]
+
+/-- A hit makes the entry the most recently used one, last used `now`. -/
+def getMutWith (now : Nat) (k : K) (f : V → V) (s : List (Entry K V)) :
+    List (Entry K V) × Option V :=
+  match lhmGet s k with
+  | some e => (lhmErase s k ++ [{ e with val := f e.val, stamp := now }], some e.val)
+  | none => (s, none)
+
+def peek (k : K) (s : List (Entry K V)) : Option V := (lhmGet s k).map (·.val)
+
+/-- One operation of the specification at time `now`: expire, then act on the live map. -/
+def step (ttl cap now : Nat) (s : List (Entry K V)) : Op K V → List (Entry K V) × Reply K V
+  | .insert k v => (insert cap now k v (live ttl now s), .unit)
+  | .get k => let r := getMutWith now k id (live ttl now s); (r.1, .val r.2)
+  | .getMut k w => let r := getMutWith now k (fun _ => w) (live ttl now s); (r.1, .val r.2)
+  | .peek k => (live ttl now s, .val (peek k (live ttl now s)))
+  | .len => (live ttl now s, .num (live ttl now s).length)
+  | .remove k => (lhmErase (live ttl now s) k, .val (peek k (live ttl now s)))
+  | .sweep => (live ttl now s, .keys [])
+
+def run (ttl cap : Nat) (s : List (Entry K V)) : List (Nat × Op K V) → List (Entry K V)
+  | [] => s
+  | (t, op) :: rest => run ttl cap (step ttl cap t s op).1 rest
+
+end Spec
+
+/-- How a reply of the cache relates to the reply of the specification: identical for `insert`,
+`get`, `get_mut`, `peek`; `len` may additionally count dead entries not yet dropped; `remove`
+returns what the specification returns when that is a value, but may also hand back the value
+of a dead entry; the sweep reports which dead entries it physically dropped. -/
+def ReplyRefines : Op K V → Reply K V → Reply K V → Prop
+  | .len, .num n, .num n' => n' ≤ n
+  | .len, _, _ => False
+  | .remove _, .val o, .val o' => o'.isSome → o = o'
+  | .remove _, _, _ => False
+  | .sweep, _, _ => True
+  | _, r, r' => r = r'
+
+omit [DecidableEq K] in
+theorem live_sublist (ttl now : Nat) (m : List (Entry K V)) : (live ttl now m).Sublist m :=
+  List.filter_sublist
+
+omit [DecidableEq K] in
+theorem mem_live {ttl now : Nat} {m : List (Entry K V)} {e : Entry K V} :
+    e ∈ live ttl now m ↔ e ∈ m ∧ ¬ e.stamp + ttl < now := by
+  simp [live, expired]
+
+omit [DecidableEq K] in
+/-- Time only moves forward: what is dead stays dead. -/
+theorem live_live {ttl t now : Nat} (m : List (Entry K V)) (h : t ≤ now) :
+    live ttl now (live ttl t m) = live ttl now m := by
+  unfold live
+  rw [List.filter_filter]
+  apply List.filter_congr
+  intro e _
+  simp only [expired]
+  by_cases h1 : e.stamp + ttl < now
+  · simp [h1]
+  · have : ¬ e.stamp + ttl < t := by omega
+    simp [h1, this]
+
+theorem live_lhmErase (ttl now : Nat) (m : List (Entry K V)) (k : K) :
+    live ttl now (lhmErase m k) = lhmErase (live ttl now m) k := by
+  unfold live lhmErase
+  rw [List.filter_filter, List.filter_filter]
+  apply List.filter_congr
+  intro e _
+  exact Bool.and_comm _ _
+
+omit [DecidableEq K] in
+theorem live_append_fresh (ttl now : Nat) (m : List (Entry K V)) (k : K) (v : V) :
+    live ttl now (m ++ [Entry.mk k v now]) = live ttl now m ++ [Entry.mk k v now] := by
+  unfold live
+  rw [List.filter_append]
+  congr 1
+  simp [expired]
+
+omit [DecidableEq K] in
+theorem live_eq_self {ttl now : Nat} {m : List (Entry K V)}
+    (h : ∀ e ∈ m, ¬ e.stamp + ttl < now) : live ttl now m = m := by
+  unfold live
+  rw [List.filter_eq_self]
+  intro e he
+  simp [expired, h e he]
+
+/-- Lookup in the live part: the entry of the full list if it is alive. -/
+theorem lhmGet_live {ttl now : Nat} {m : List (Entry K V)} (k : K)
+    (hd : m.Pairwise (fun a b => a.key ≠ b.key)) :
+    (∀ e, lhmGet m k = some e → ¬ e.stamp + ttl < now → lhmGet (live ttl now m) k = some e) ∧
+    (∀ e, lhmGet m k = some e → e.stamp + ttl < now → lhmGet (live ttl now m) k = none) ∧
+    (lhmGet m k = none → lhmGet (live ttl now m) k = none) := by
+  refine ⟨?_, ?_, ?_⟩
+  · intro e hg hx
+    have hm := lhmGet_some hg
+    have := lhmGet_of_mem (hd.sublist (live_sublist ttl now m)) (mem_live.2 ⟨hm.1, hx⟩)
+    rwa [hm.2] at this
+  · intro e hg hx
+    rw [lhmGet_none]
+    intro a ha hk
+    have ham := mem_live.1 ha
+    have := lhmGet_of_mem hd ham.1
+    rw [hk, hg] at this
+    injection this with this
+    rw [this] at hx
+    exact ham.2 hx
+  · intro hg
+    rw [lhmGet_none] at hg ⊢
+    intro a ha
+    exact hg a (mem_live.1 ha).1
+
+omit [DecidableEq K] in
+/-- In a list sorted by stamp, if the front entry is alive then every entry is. -/
+theorem live_of_front_live {ttl now : Nat} {x : Entry K V} {xs : List (Entry K V)}
+    (hs : (x :: xs).Pairwise (fun a b => a.stamp ≤ b.stamp)) (hx : ¬ x.stamp + ttl < now) :
+    ∀ e ∈ x :: xs, ¬ e.stamp + ttl < now := by
+  intro e he
+  rw [List.pairwise_cons] at hs
+  rcases List.mem_cons.1 he with h | h
+  · rw [h]; exact hx
+  · have := hs.1 e h; omega
+
+theorem insert_refines {c : Cache K V} {t : Nat} (now : Nat) (k : K) (v : V) (h : WF c t)
+    (ht : t ≤ now) :
+    live c.ttl now (insert c now k v).map = Spec.insert c.capacity now k v (live c.ttl now c.map) := by
+  have hsorted : (lhmErase c.map k ++ [(⟨k, v, now⟩ : Entry K V)]).Pairwise
+      (fun a b => a.stamp ≤ b.stamp) :=
+    sorted_erase_append h.sorted.1 (fun a ha => Nat.le_trans (h.sorted.2 a ha) ht)
+  have hlive : live c.ttl now (lhmErase c.map k ++ [(⟨k, v, now⟩ : Entry K V)]) =
+      lhmErase (live c.ttl now c.map) k ++ [(⟨k, v, now⟩ : Entry K V)] := by
+    rw [live_append_fresh, live_lhmErase]
+  have hlen : (lhmErase c.map k ++ [(⟨k, v, now⟩ : Entry K V)]).length ≤ c.capacity + 1 := by
+    have := length_lhmErase_le c.map k
+    have := h.bounded
+    unfold Bounded at this
+    rw [List.length_append, List.length_singleton]; omega
+  rw [insert_map]
+  unfold Spec.insert
+  rw [← hlive]
+  generalize hm1 : lhmErase c.map k ++ [(⟨k, v, now⟩ : Entry K V)] = m1 at *
+  by_cases hgt : m1.length > c.capacity
+  · rw [if_pos hgt]
+    cases m1 with
+    | nil => simp at hgt
+    | cons x xs =>
+      simp only [List.tail_cons]
+      by_cases hx : x.stamp + c.ttl < now
+      · -- the evicted front entry was dead: the live part does not change and fits
+        have hl : live c.ttl now (x :: xs) = live c.ttl now xs := by
+          unfold live; rw [List.filter_cons]; simp [expired, hx]
+        rw [hl]
+        have : (live c.ttl now xs).length ≤ xs.length := (live_sublist _ _ _).length_le
+        simp only [List.length_cons] at hlen
+        rw [if_neg (by omega)]
+      · -- the front entry is alive, hence (sorted) all are: the live part is the whole list
+        have hall := live_of_front_live hsorted hx
+        rw [live_eq_self hall, if_pos hgt, List.tail_cons]
+        exact live_eq_self (fun e he => hall e (List.mem_cons_of_mem _ he))
+  · rw [if_neg hgt]
+    have : (live c.ttl now m1).length ≤ m1.length := (live_sublist _ _ _).length_le
+    rw [if_neg (by omega)]
+
+theorem getMutWith_refines {c : Cache K V} (now : Nat) (k : K) (f : V → V) (h : Distinct c) :
+    live c.ttl now (getMutWith c now k f).1.map =
+        (Spec.getMutWith now k f (live c.ttl now c.map)).1 ∧
+      (getMutWith c now k f).2 = (Spec.getMutWith now k f (live c.ttl now c.map)).2 := by
+  have hl := lhmGet_live (ttl := c.ttl) (now := now) k h
+  unfold Spec.getMutWith
+  rcases getMutWith_cases c now k f with ⟨hg, hr⟩ | ⟨e, hg, hx, hr⟩ | ⟨e, hg, hx, hr⟩ <;> rw [hr]
+  · rw [hl.2.2 hg]; exact ⟨rfl, rfl⟩
+  · rw [hl.2.1 e hg hx]
+    simp only []
+    rw [live_lhmErase, lhmErase_of_absent (lhmGet_none.1 (hl.2.1 e hg hx))]
+    exact ⟨rfl, trivial⟩
+  · rw [hl.1 e hg hx]
+    simp only []
+    rw [live_append_fresh, live_lhmErase]
+    exact ⟨rfl, trivial⟩
+
+theorem peek_refines {c : Cache K V} (now : Nat) (k : K) (h : Distinct c) :
+    peek c now k = Spec.peek k (live c.ttl now c.map) := by
+  have hl := lhmGet_live (ttl := c.ttl) (now := now) k h
+  unfold peek Spec.peek
+  cases hg : lhmGet c.map k with
+  | none => rw [hl.2.2 hg]; rfl
+  | some e =>
+    by_cases hx : e.stamp + c.ttl < now
+    · rw [hl.2.1 e hg hx]; simp only []; rw [if_neg (by omega)]; rfl
+    · rw [hl.1 e hg hx]; simp only []; rw [if_pos (by omega)]; rfl
+
+omit [DecidableEq K] in
+/-- The sweep drops dead entries only. -/
+theorem live_dropWhile (ttl now : Nat) (m : List (Entry K V)) :
+    live ttl now (m.dropWhile (expired ttl now)) = live ttl now m := by
+  induction m with
+  | nil => rfl
+  | cons x xs ih =>
+    rw [List.dropWhile_cons]
+    by_cases hx : expired ttl now x = true
+    · rw [if_pos hx, ih]
+      unfold live
+      rw [List.filter_cons]
+      simp [hx]
+    · rw [if_neg hx]
+
+omit [DecidableEq K] in
+/-- On a list sorted by stamp the sweep drops *every* dead entry. -/
+theorem dropWhile_eq_live {ttl now : Nat} {m : List (Entry K V)}
+    (hs : m.Pairwise (fun a b => a.stamp ≤ b.stamp)) :
+    m.dropWhile (expired ttl now) = live ttl now m := by
+  induction m with
+  | nil => rfl
+  | cons x xs ih =>
+    rw [List.dropWhile_cons]
+    by_cases hx : expired ttl now x = true
+    · rw [if_pos hx, ih (List.pairwise_cons.1 hs).2]
+      unfold live
+      rw [List.filter_cons]
+      simp [hx]
+    · rw [if_neg hx]
+      have hx' : ¬ x.stamp + ttl < now := by simpa [expired] using hx
+      exact (live_eq_self (live_of_front_live hs hx')).symm
+
+/-- Every operation commutes with the abstraction `live`: the live part of the cache after the
+operation is what the specification computes from the live part before it. -/
+theorem step_refines {c : Cache K V} {t : Nat} (now : Nat) (op : Op K V) (h : WF c t)
+    (ht : t ≤ now) :
+    live c.ttl now (step c now op).1.map =
+        (Spec.step c.ttl c.capacity now (live c.ttl t c.map) op).1 ∧
+      ReplyRefines op (step c now op).2 (Spec.step c.ttl c.capacity now (live c.ttl t c.map) op).2 := by
+  cases op with
+  | insert k v =>
+    simp only [step, Spec.step, live_live _ ht, ReplyRefines]
+    exact ⟨insert_refines now k v h ht, trivial⟩
+  | get k =>
+    simp only [step, get, getMut, Spec.step, live_live _ ht, ReplyRefines]
+    have := getMutWith_refines now k id h.distinct
+    exact ⟨this.1, by rw [this.2]⟩
+  | getMut k w =>
+    simp only [step, Spec.step, live_live _ ht, ReplyRefines]
+    have := getMutWith_refines now k (fun _ => w) h.distinct
+    exact ⟨this.1, by rw [this.2]⟩
+  | peek k =>
+    simp only [step, Spec.step, live_live _ ht, ReplyRefines]
+    exact ⟨trivial, by rw [peek_refines now k h.distinct]⟩
+  | len =>
+    simp only [step, Spec.step, live_live _ ht, ReplyRefines, len]
+    exact ⟨trivial, (live_sublist _ _ _).length_le⟩
+  | remove k =>
+    simp only [step, remove, Spec.step, live_live _ ht, ReplyRefines]
+    refine ⟨live_lhmErase _ _ _ _, ?_⟩
+    have hl := lhmGet_live (ttl := c.ttl) (now := now) k h.distinct
+    unfold Spec.peek
+    cases hg : lhmGet c.map k with
+    | none => rw [hl.2.2 hg]; simp
+    | some e =>
+      by_cases hx : e.stamp + c.ttl < now
+      · rw [hl.2.1 e hg hx]; simp
+      · rw [hl.1 e hg hx]; simp
+  | sweep =>
+    simp only [step, removeExpired, Spec.step, live_live _ ht, ReplyRefines]
+    exact ⟨live_dropWhile _ _ _, trivial⟩
+
+theorem run_refines {c : Cache K V} {t0 : Nat} (ops : List (Nat × Op K V)) (h : WF c t0)
+    (hm : NonDecreasing t0 ops) :
+    live c.ttl (lastTime t0 ops) (run c ops).map =
+      Spec.run c.ttl c.capacity (live c.ttl t0 c.map) ops := by
+  induction ops generalizing c t0 with
+  | nil => rfl
+  | cons p rest ih =>
+    obtain ⟨t, op⟩ := p
+    have hs := step_refines t op h hm.1
+    have := ih (step_wf t op h hm.1) hm.2
+    rw [step_ttl, step_capacity] at this
+    simp only [run, Spec.run, lastTime]
+    rw [this, hs.1]
 
 end Discv5.Lru
